@@ -3,7 +3,7 @@ Spec: specs/msc/ParentSelect.tla -- the relation Valid(existing, options, kinds,
 from the statement (existing parents first and in order; at most one new option per strategy; new ones
 offered, distinct, not existing; shorter only when the options are exhausted; a metric strategy picks an
 option of maximal metric among those still available).  MC_ParentSelect.tla (pattern S) enumerates the
-inputs; the harness runs the real ancestor.ChooseParents on each case 20 times (map-order shuffling of
+inputs; the harness runs the real ancestor.ChooseParents on each case 21 times (map-order shuffling of
 the options, free strategies picking first/last/random) and logs the distinct results;
 ParentSelectTrace.tla (pattern T) lets TLC judge every logged result against Valid."""
 import json
@@ -24,7 +24,7 @@ def run(c):
     c.log("TLC %s enumerated %d cases" % (cfg, res.edges))
     c.guard("cases", res.edges)
     trace = c.path("ps_trace.ndjson")
-    runs = 20
+    runs = 21          # three runs for each of the seven embeddings of the metric ranks into uint64
     fbuild.result()
     stats = json.loads(c.vh(["parentsrun", cases, trace, runs]).stdout)
     c.log("ChooseParents executed:", stats)
@@ -64,4 +64,6 @@ def run(c):
         harness_stats=stats, samples=samples,
     ), assumptions=["free strategies are scripted (first / last / seeded random offer) or ancestor.RandomStrategy; the relation leaves their choice open",
                     "metric entries of parents that cannot be added are fixed to 0 in the enumeration (they cannot influence a valid result)",
+                    "the specification's metric values {0,1,2} are ranks; the harness embeds them into uint64 through seven strictly "
+                    "increasing maps (small, around 2^31/2^32, 2^63 or more apart, up to MaxUint64), one per run in rotation",
                     "distinct_nontrivial = cases in which the repeated runs produced more than one result (map-order nondeterminism observed)"])
